@@ -108,6 +108,90 @@ def reported_vs_tree(ctx, what, reported_log10, tree, inputs, output, size_dict,
         ctx.fail("%s reports flops %d but the returned tree costs %d" % (what, R, F), rec)
 
 
+def reusable_sequences(ctx, ctg, rng):
+    """SEQUENCES of different contractions through ONE reusable optimizer object: for every query the
+    stored score / reported flops must be the cost of the tree rebuilt from the stored path ON THE
+    QUERIED contraction, and the returned tree must be a tree of the queried contraction.
+    (RandomGreedyOptimizer itself is documented as 'a stateful optimizer that should not be re-used on
+    different contractions', so direct reuse of one instance is not judged.)"""
+    import os
+    import tempfile
+    nseq = ctx.n(10, 80)
+    for si in range(nseq):
+        # 3-4 different contractions, same and different tensor counts, cheapest first
+        nets = []
+        n0 = rng.randint(3, 5)
+        for k in range(rng.randint(3, 4)):
+            N = n0 if (k < 2 or rng.random() < 0.5) else rng.randint(3, 6)
+            for _ in range(50):
+                inputs, output, size_dict = gen.rand_net(rng, nmin=N, nmax=N, ordinary=True, p_disconnected=0.0,
+                                                         p_size1=0.0, dmax=4)
+                if all(len(t) > 0 for t in inputs) and (inputs, output) not in [(a, b) for a, b, _ in nets]:
+                    break
+            nets.append((inputs, output, size_dict))
+
+        def cheap(net):
+            o = ctg.RandomGreedyOptimizer(max_repeats=2, seed=0, accel=False, parallel=False)
+            return o.search(*net).total_flops()
+        nets.sort(key=cheap)
+        kind = ("rgreedy-mem", "rgreedy-dir", "hyper-mem", "hyper-dir")[si % 4]
+        tmp = tempfile.mkdtemp(prefix="c18_reuse_", dir=ctx.scratch) if kind.endswith("dir") else None
+        seed = rng.randrange(2 ** 30)
+        if kind.startswith("rgreedy"):
+            ropt = ctg.ReusableRandomGreedyOptimizer(max_repeats=3, seed=seed, accel=False, parallel=False, directory=tmp)
+        else:
+            ropt = ctg.ReusableHyperOptimizer(methods=["greedy"], max_repeats=3, optlib="random", parallel=False,
+                                              progbar=False, seed=seed, minimize="flops", directory=tmp)
+        ctx.count("reuse_seq:" + kind)
+        history = []
+        for qi, (inputs, output, size_dict) in enumerate(nets):
+            history.append({"inputs": inputs, "output": output, "size_dict": size_dict})
+            rec = {"optimizer": kind, "seed": seed, "queries_so_far": list(history), "query_index": qi}
+            try:
+                t1 = guarded(lambda: ropt.search(inputs, output, size_dict), 60)
+                h, missing = ropt.hash_query(inputs, output, size_dict)
+                if missing:
+                    ctx.fail("reusable optimizer (%s): the contraction just searched is missing from the cache" % kind, rec)
+                    continue
+                con = ropt._cache[h]
+                path = [tuple(p_) for p_ in con["path"]]
+                if not oracle.path_is_valid_linear(len(inputs), path):
+                    ctx.fail("reusable optimizer (%s): the stored path %r is not a complete path of the queried "
+                             "%d-tensor contraction" % (kind, path, len(inputs)), rec)
+                    continue
+                rebuilt = ctg.ContractionTree.from_path(inputs, output, size_dict, path=path)
+                F = rebuilt.total_flops()
+                if [tuple(t) for t in t1.inputs] != [tuple(t) for t in inputs] or t1.N != len(inputs) \
+                        or not oracle.tree_is_complete(t1):
+                    ctx.fail("reusable optimizer (%s): the returned tree is not a complete tree of the queried "
+                             "contraction" % kind, rec)
+                    continue
+                if t1.total_flops() != F:
+                    ctx.fail("reusable optimizer (%s): returned tree costs %r, the stored path costs %r on the queried "
+                             "contraction" % (kind, t1.total_flops(), F), rec)
+                if kind.startswith("rgreedy"):
+                    rep = 10 ** con["score"]
+                    if abs(rep - round(rep)) > 1e-6 * max(1, round(rep)) or round(rep) != F:
+                        ctx.fail("ReusableRandomGreedyOptimizer (%s): stored score says %r flops, the tree built from the "
+                                 "stored path on the queried contraction costs %r" % (kind, rep, F), rec)
+                else:
+                    want = ctg.ContractionTree.from_path(inputs, output, size_dict, path=path,
+                                                         objective="flops").get_score()
+                    if abs(con["score"] - want) > 1e-9 * max(1.0, abs(want)):
+                        ctx.fail("ReusableHyperOptimizer (%s): stored score %r, score recomputed for the stored path on "
+                                 "the queried contraction %r" % (kind, con["score"], want), rec)
+                # cache hit: same answer again
+                t2 = guarded(lambda: ropt.search(inputs, output, size_dict), 60)
+                if t2.total_flops() != F:
+                    ctx.fail("reusable optimizer (%s): a cache hit returns a tree of cost %r, the stored path costs %r" % (
+                        kind, t2.total_flops(), F), rec)
+                ctx.count("reuse_queries")
+            except _Timeout:
+                ctx.fail("reusable optimizer (%s) did not return within 60 s" % kind, rec)
+            except Exception as e:
+                ctx.fail("reusable optimizer (%s) raised %r on a query of a sequence" % (kind, e), rec)
+
+
 def run(ctx):
     if not standard_proof_steps(ctx):
         return
@@ -358,6 +442,9 @@ def run(ctx):
         "(reported_flops (mkNet [[0;1];[1;2]] [0;2] [(0,2%Z);(1,3%Z);(2,5%Z)]) [(0,1)], "
         "total_flops (mkNet [[0;1];[1;2]] [0;2] [(0,2%Z);(1,3%Z);(2,5%Z)]) [] (Node (Leaf 0) (Leaf 1)))"])
     ctx.meta["model_witness"] = vals
+
+    # ---- sequences of different contractions through one reusable optimizer ------------
+    reusable_sequences(ctx, ctg, rng)
 
     # ---- model vs code ---------------------------------------------------------------
     for name, imports, cases, what in (
